@@ -28,7 +28,7 @@ struct Problem
 {
   int n, m;
   std::string method;     // cholesky | svd | weighted
-  bool precond; bool precond_diag; bool precond_graded = false;
+  bool precond; bool precond_diag; bool precond_graded = false; bool nearly_orthogonal_columns = false;
   LD kappaJ, scale, resid_rel;
   MatL J; VecL Y, W; MatL A; VecL b;     // already rounded to the scalar type
 };
@@ -85,6 +85,16 @@ static void gen_problem(vh::Rng & r, int m, Problem & p, bool is_float)
   MatL U = random_orthonormal(r, p.n, m), V = random_orthonormal(r, m, m);
   VecL sv(m);
   for (int i = 0; i < m; ++i) {sv(i) = i == 0 ? 1.0L : (i == m - 1 ? 1 / p.kappaJ : (LD)r.logu((double)(1 / p.kappaJ), 1.0));}
+  p.nearly_orthogonal_columns = m >= 2 && r.coin(0.12);
+  if (p.nearly_orthogonal_columns) {
+    // regressors of graded scale that are orthogonal up to a small coupling (a line fit on a nearly
+    // centred abscissa): the normal matrix is diagonal to 1e-14..1e-3 of its LARGEST entry, which is
+    // far from negligible against its small diagonal entries
+    const LD coupling = (LD)r.logu(1e-14, 1e-3);
+    V = MatL::Identity(m, m);
+    for (int i = 0; i < m; ++i) {for (int j = 0; j < m; ++j) {if (i != j) {V(i, j) = coupling * r.normal();}}}
+    for (int i = m; i > 1; --i) {std::swap(sv(i - 1), sv(r.range(0, i - 1)));}      // any column may be the large one
+  }
   MatL J = U * (sv * p.scale).asDiagonal() * V.transpose();
   VecL x0(m);
   LD xs = r.logu(1e-3, 1e3);
@@ -184,6 +194,7 @@ static void run_history(vh::Ctx & c, vh::Rng & r, int m, bool is_float)
     h = vh::hash_add(h, (double)p.n); h = vh::hash_add(h, (double)p.J(0, 0));
     trace += (k ? "," : "") + p.method + ":" + std::to_string(p.n) + (p.precond ? "p" : "");
     c.cat("method_" + p.method);
+    if (p.nearly_orthogonal_columns) {c.cat("regressors_orthogonal_up_to_a_small_coupling");}
     if (p.precond) {c.cat(p.precond_graded ? "precond_graded_nearly_diagonal" : p.precond_diag ? "precond_diagonal" : "precond_general");}
 
     // ---- oracle (weighted problem if the method is the weighted one)
